@@ -39,6 +39,7 @@ PROBES = [
     "probe.fault_in_flush", "probe.fault_in_direct_write", "probe.fault_on_overflow", "probe.fault_in_header_read",
     "probe.fault_in_record_read", "probe.fault_on_open", "probe.fault_on_stdin", "probe.fault_on_stdout",
     "probe.real_enoent", "probe.real_eisdir", "probe.real_eexist", "probe.real_enotdir", "probe.real_enospc",
+    "probe.real_enametoolong", "probe.real_eloop", "probe.real_eio",
     "probe.nonpcap", "probe.op_after_fault_ok", "probe.eintr_retried", "probe.second_fault",
 ]
 
@@ -60,8 +61,11 @@ EMPTYP = "d/empty.pcap"
 SHORTP = "d/short.pcap"
 GARBP = "d/garbage.pcap"
 PKP = "d/pk.pcap"
+LONG = "d/" + "n" * 300          # ENAMETOOLONG
+LOOP = "d/loop"                  # symlink to itself: ELOOP
+PROCMEM = "/proc/self/mem"       # opens fine, every read(2) at offset 0 fails with EIO
 PATH_IDS = {GOOD: 1, SMALL: 2, EXISTS: 3, DIR: 4, NOTDIR: 5, MISSING: 6, NODIR: 7, FULL: 8, GOODP: 9, TRUNCP: 10,
-            EMPTYP: 11, SHORTP: 12, GARBP: 13, PKP: 14}
+            EMPTYP: 11, SHORTP: 12, GARBP: 13, PKP: 14, PROCMEM: 15}
 
 
 def fresh_path(i):
@@ -107,6 +111,9 @@ def fixtures(fix):
     return files, ["d", DIR], info
 
 
+SYMLINKS = {LOOP: "loop"}
+
+
 def stdin_bytes(model, info):
     k = model["stdin"]
     if k == "text":
@@ -148,8 +155,10 @@ def systematic_cases():
 
     # A. real failing targets
     for mode in ("r", "w", "a", "x"):
-        for path in (MISSING, DIR, EXISTS, NOTDIR, NODIR, FULL, GOOD, fresh_path(0)):
+        for path in (MISSING, DIR, EXISTS, NOTDIR, NODIR, FULL, GOOD, fresh_path(0), LONG, LOOP, PROCMEM):
             if path == FULL and mode == "r":
+                continue
+            if path == PROCMEM and mode != "r":
                 continue
             ops = [{"op": "open", "path": path, "mode": mode, "var": "h"}]
             if mode == "r":
@@ -159,8 +168,10 @@ def systematic_cases():
                         {"op": "write", "h": "h", "data": _wd("small")}, {"op": "flush", "h": "h"}]
             case(ops, note="real target %s mode %s" % (path, mode))
     for mode in ("r", "w", "x"):
-        for path in (MISSING, DIR, EXISTS, NOTDIR, NODIR, FULL, GOODP, TRUNCP, EMPTYP, SHORTP, GARBP, SMALL, fresh_path(0)):
+        for path in (MISSING, DIR, EXISTS, NOTDIR, NODIR, FULL, GOODP, TRUNCP, EMPTYP, SHORTP, GARBP, SMALL, fresh_path(0), LONG, LOOP, PROCMEM):
             if path == FULL and mode == "r":
+                continue
+            if path == PROCMEM and mode != "r":
                 continue
             ops = [{"op": "pcap_open", "path": path, "mode": mode, "var": "p"}]
             if mode == "r":
@@ -255,14 +266,14 @@ def gen_random(rng, deep=False):
             if which == "open":
                 mode = rng.weighted([(45, "r"), (25, "w"), (15, "a"), (15, "x")])
                 if mode == "r":
-                    path = rng.weighted([(40, GOOD), (15, SMALL), (8, MISSING), (10, DIR), (8, NOTDIR), (5, NODIR), (7, GOODP), (7, EXISTS)])
-                    kind = "reader" if path in (GOOD, SMALL, GOODP, EXISTS) else ("dirreader" if path == DIR else "err")
+                    path = rng.weighted([(40, GOOD), (15, SMALL), (8, MISSING), (10, DIR), (8, NOTDIR), (5, NODIR), (7, GOODP), (7, EXISTS), (4, LONG), (4, LOOP), (7, PROCMEM)])
+                    kind = "reader" if path in (GOOD, SMALL, GOODP, EXISTS) else ("dirreader" if path in (DIR, PROCMEM) else "err")
                 else:
-                    path = rng.weighted([(40, "fresh"), (12, EXISTS), (8, DIR), (8, NOTDIR), (8, NODIR), (16, FULL), (8, GOOD)])
+                    path = rng.weighted([(40, "fresh"), (12, EXISTS), (8, DIR), (8, NOTDIR), (8, NODIR), (16, FULL), (8, GOOD), (4, LONG), (4, LOOP)])
                     if path == "fresh":
                         path = fresh_path(nfresh)
                         nfresh += 1
-                    if path in (DIR, NOTDIR, NODIR):
+                    if path in (DIR, NOTDIR, NODIR, LONG, LOOP):
                         kind = "err"
                     elif mode == "x" and not path.startswith("d/out"):
                         kind = "err"
@@ -272,14 +283,14 @@ def gen_random(rng, deep=False):
             elif which == "pcap_open":
                 mode = rng.weighted([(60, "r"), (25, "w"), (15, "x")])
                 if mode == "r":
-                    path = rng.weighted([(40, GOODP), (14, TRUNCP), (7, EMPTYP), (7, SHORTP), (7, GARBP), (6, SMALL), (7, MISSING), (6, DIR), (6, NOTDIR)])
+                    path = rng.weighted([(40, GOODP), (14, TRUNCP), (7, EMPTYP), (7, SHORTP), (7, GARBP), (6, SMALL), (7, MISSING), (6, DIR), (6, NOTDIR), (3, LONG), (3, LOOP), (5, PROCMEM)])
                     kind = "pcapr" if path in (GOODP, TRUNCP) else "err"
                 else:
-                    path = rng.weighted([(45, "fresh"), (10, EXISTS), (8, DIR), (8, NOTDIR), (8, NODIR), (21, FULL)])
+                    path = rng.weighted([(45, "fresh"), (10, EXISTS), (8, DIR), (8, NOTDIR), (8, NODIR), (21, FULL), (3, LONG), (3, LOOP)])
                     if path == "fresh":
                         path = fresh_path(nfresh)
                         nfresh += 1
-                    if path in (DIR, NOTDIR, NODIR) or (mode == "x" and not path.startswith("d/out")):
+                    if path in (DIR, NOTDIR, NODIR, LONG, LOOP) or (mode == "x" and not path.startswith("d/out")):
                         kind = "err"
                     else:
                         kind = "pcapw"
@@ -356,6 +367,7 @@ def generate(rng, tier, idx):
 def render(model):
     files, dirs, info = fixtures(model["fix"])
     paths = [[pid, "r", p] for p, pid in PATH_IDS.items() if p not in (DIR, NOTDIR, MISSING, NODIR)]
+    # LONG and LOOP fall under the watched root with the generic target id
     for i in range(8):
         paths.append([20 + i, "r", fresh_path(i)])
     # DIR/NOTDIR/MISSING/NODIR fall under the watched root with the generic target id
@@ -404,7 +416,7 @@ def render(model):
             lines.append('if is_error(%s) { eprintln("#%d X"); } else { %s }' % (h, k, body))
     lines.append("time();")
     lines.append('eprintln("#9999 V DONE");')
-    return {"argv": ["s.p2"], "script": "\n".join(lines) + "\n", "files": files, "dirs": dirs, "stdin": stdin_bytes(model, info), "plan": plan}
+    return {"argv": ["s.p2"], "script": "\n".join(lines) + "\n", "files": files, "dirs": dirs, "symlinks": SYMLINKS, "stdin": stdin_bytes(model, info), "plan": plan}
 
 
 # ---------------------------------------------------------------------------
@@ -498,7 +510,8 @@ def check(model, results):
                 inc("probe.second_fault")
         for e in errs:
             if e.action == 0:
-                inc({2: "probe.real_enoent", 21: "probe.real_eisdir", 17: "probe.real_eexist", 20: "probe.real_enotdir", 28: "probe.real_enospc"}.get(e.errno, "real.errno%d" % e.errno))
+                inc({2: "probe.real_enoent", 21: "probe.real_eisdir", 17: "probe.real_eexist", 20: "probe.real_enotdir", 28: "probe.real_enospc",
+                     36: "probe.real_enametoolong", 40: "probe.real_eloop", 5: "probe.real_eio"}.get(e.errno, "real.errno%d" % e.errno))
         if errs or eintr or shorts:
             nontrivial = True
         ob = obs.get(k)
@@ -682,17 +695,17 @@ def _expect_create(op, info, file_state, st):
             return None, "pcapr", {"recs": None, "i": 0, "dist": True}
         return ok, "pcapr", {"recs": [(r[0], r[1], r[2], r[3], r[2]) for r in recs], "i": 0}
     path, mode = op["path"], op["mode"]
-    exists = path in file_state or path in (DIR, FULL)
+    exists = path in file_state or path in (DIR, FULL, LOOP)
     if mode == "r":
-        if path in (MISSING, NOTDIR, NODIR) or (path not in file_state and path != DIR):
+        if path in (MISSING, NOTDIR, NODIR, LONG, LOOP) or (path not in file_state and path not in (DIR, PROCMEM)):
             return False, "err", {}
         if o == "open":
-            if path == DIR:
+            if path in (DIR, PROCMEM):
                 return True, "dirreader", {}
             if file_state[path] is None:
                 return True, "reader", {"data": None, "cur": 0, "dist": True, "srcpath": path}
             return True, "reader", {"data": file_state[path], "cur": 0, "srcpath": path}
-        if path == DIR:
+        if path in (DIR, PROCMEM):
             return False, "err", {}
         data = file_state[path]
         if data is None:
@@ -701,7 +714,7 @@ def _expect_create(op, info, file_state, st):
         ok = hdr is not None and hdr["magic"] in (pcapfmt.MAGIC_US, pcapfmt.MAGIC_NS)
         return ok, "pcapr", {"recs": [(r[0], r[1], r[2], r[3], r[2]) for r in recs], "i": 0, "srcpath": path}
     # writers
-    if path in (DIR, NOTDIR, NODIR):
+    if path in (DIR, NOTDIR, NODIR, LONG, LOOP):
         return False, "err", {}
     if mode == "x" and exists:
         return False, "err", {}
